@@ -12,6 +12,7 @@
 // See the License for the specific language governing permissions and
 // limitations under the License.
 
+#[cfg(not(foyer_verif))]
 use std::{
     collections::VecDeque,
     fmt::Debug,
@@ -23,6 +24,20 @@ use std::{
     task::{Poll, ready},
     time::Instant,
 };
+#[cfg(foyer_verif)]
+use std::{
+    collections::VecDeque,
+    fmt::Debug,
+    future::{Future, poll_fn},
+    sync::{
+        Arc,
+        atomic::{Ordering},
+    },
+    task::{Poll, ready},
+    time::Instant,
+};
+#[cfg(foyer_verif)]
+use foyer_common::verif::sync::atomic::{AtomicUsize};
 
 use foyer_common::{
     bits,
